@@ -50,6 +50,47 @@ type drawShadow struct {
 	allowed   map[[2]int]map[int]bool // block ids in which the cell may receive payload
 }
 
+// lockGuardSuffix probes the tree under test once per process: "+lg" when a wide rune stored in the column left of a
+// locked cell is no longer written as a two-column glyph (fixes/C13-wide-left-of-locked.patch), "" for the pinned
+// drawCell.  The suffix is appended to the entry name on generated `draw` / `modes` case lines so that the Lean driver
+// runs the matching model variant (DrawCfg.guardLocked); the oracle never looks at it.
+var lockGuardVariant *string
+
+func lockGuardSuffix() string {
+	if lockGuardVariant != nil {
+		return *lockGuardVariant
+	}
+	s := ""
+	if ti := drawTi("xterm-256color", false); ti != nil {
+		os.Setenv("LC_ALL", "en_US.UTF-8")
+		tty := NewFakeTty(3, 1)
+		if scr, err := tcell.NewTerminfoScreenFromTtyTerminfo(tty, ti); err == nil && scr.Init() == nil {
+			scr.SetContent(1, 0, 'b', nil, tcell.StyleDefault)
+			scr.Show()
+			scr.LockRegion(1, 0, 1, 1, true)
+			scr.SetContent(0, 0, 0x4e16, nil, tcell.StyleDefault)
+			tty.TakeWrites()
+			scr.Show()
+			if out := string(joinBlocks(tty.TakeWrites())); len(out) > 0 && !strings.Contains(out, "\xe4\xb8\x96") {
+				s = "+lg"
+			}
+			scr.Fini()
+		}
+	}
+	lockGuardVariant = &s
+	return s
+}
+
+// splitLockGuard strips the variant suffix from an entry token; stale = the line was recorded on a tree of the other
+// variant (a replay): the oracle still runs, the model comparison is skipped.
+func splitLockGuard(tok string) (name string, stale bool) {
+	name, flag := tok, ""
+	if i := strings.Index(tok, "+lg"); i >= 0 {
+		name, flag = tok[:i]+tok[i+3:], "+lg"
+	}
+	return name, flag != lockGuardSuffix()
+}
+
 func ecmaEntries() []string {
 	var out []string
 	seen := map[*terminfo.Terminfo]bool{}
@@ -315,6 +356,7 @@ func execDraw(line string) (res h.Result) {
 		return h.Result{Obs: "bad-line"}
 	}
 	name, tc, w, hh := f[0], f[1] == "1", h.Atoi(f[2]), h.Atoi(f[3])
+	name, staleVariant := splitLockGuard(name)
 	ops := h.SplitTrim(f[4], ";")
 	charset := "UTF-8"
 	if i := strings.Index(name, "@"); i >= 0 {
@@ -417,7 +459,11 @@ func execDraw(line string) (res h.Result) {
 	u8 := 1
 	if !utf8loc {
 		u8 = 0
-		emuOps = append([]string{"C c1"}, emuOps...) // in an 8-bit locale the bytes 0x80-0x9f are C1 controls
+		if strings.HasPrefix(charset, "ISO8859") || charset == "US-ASCII" {
+			// ISO 8859-x (and ASCII) terminals: the bytes 0x80-0x9f are C1 controls.  In other 8-bit charsets
+			// (KOI8-R, CP125x, …) they are graphic characters of the terminal's character set.
+			emuOps = append([]string{"C c1"}, emuOps...)
+		}
 	}
 	emuNow := func() (map[string]string, []emuCell, string) {
 		d := h.Ref(fmt.Sprintf("emu %d %d %d 1 acs:%s %s", w, hh, u8, acs, strings.Join(emuOps, "; ")))
@@ -427,6 +473,7 @@ func execDraw(line string) (res h.Result) {
 	epoch := 0 // bumped by anything that legitimately repaints or destroys the whole display
 	lockSnap := map[[2]int]emuCell{}
 	lockEpoch := map[[2]int]int{}
+	lockLead := map[[2]int]bool{} // when it was locked the cell showed the left half of a wide glyph
 	lastDraw := false
 	tags := map[string]bool{}
 	afterDraw := func(full bool) {
@@ -450,6 +497,9 @@ func execDraw(line string) (res h.Result) {
 	}
 	for i, op := range ops {
 		t := strings.Fields(op)
+		if len(t) > 0 && (t[0] == "FIT" || t[0] == "FIT0") {
+			continue // pseudo-ops for the Lean driver (colour-fitting values); they must not reset lastDraw
+		}
 		lastDraw = false
 		tag := strconv.Itoa(i)
 		switch t[0] {
@@ -513,11 +563,17 @@ func execDraw(line string) (res h.Result) {
 							if !sh.locked[[2]int{k, j}] && lkv["size"] == fmt.Sprintf("%dx%d", sh.w, sh.h) && len(lcells) == sh.w*sh.h {
 								lockSnap[[2]int{k, j}] = lcells[j*sh.w+k]
 								lockEpoch[[2]int{k, j}] = epoch
+								lockLead[[2]int{k, j}] = k+1 < sh.w && strings.Contains(lcells[j*sh.w+k+1].flags, "c")
 							}
 							sh.locked[[2]int{k, j}] = true
 						} else {
 							delete(sh.locked, [2]int{k, j})
 							sh.changed[[2]int{k, j}] = true
+							// an unlocked cell that is the right half of a wide rune is repainted through that rune
+							if k > 0 && widthOf(get(k-1, j).main) > 1 {
+								sh.changed[[2]int{k - 1, j}] = true
+								tags["unlock-right-of-wide"] = true
+							}
 						}
 					}
 				}
@@ -634,6 +690,13 @@ func execDraw(line string) (res h.Result) {
 						pen = expectPen(st, ti, der, truecolor)
 					}
 					var want []string
+					// a wide rune whose right half is a locked cell cannot be shown without writing to the locked cell:
+					// it is shown as a blank (the policy of the last column) — or still as the glyph painted before
+					// the cell was locked
+					cut := wide && sh.locked[[2]int{x + 1, y}]
+					if cut {
+						tags["wide-left-of-locked"] = true
+					}
 					if wd > 1 && !wide {
 						want = []string{"32"} // wide rune in the last column: a blank
 					} else {
@@ -650,11 +713,16 @@ func execDraw(line string) (res h.Result) {
 					if got == "-" {
 						got = "32"
 					}
+					if cut && got == "32" && !strings.Contains(ec.flags, "g") && penMatch(pen, ec.pen) {
+						tags["wide-left-of-locked-blank"] = true
+						continue
+					}
 					if strings.Contains(ec.flags, "g") || got != strings.Join(want, ",") || !penMatch(pen, ec.pen) {
 						addF("display-mismatch", "cell (%d,%d): terminal shows %s/%s/%s, application set rune %d comb %v style %s (want %s/%s)",
 							x, y, ec.runes, ec.pen, ec.flags, c.main, c.comb, c.style, strings.Join(want, ","), pen)
 					}
-					if mustBeBlank(c.main) && got != "32" {
+					// shown as a blank: the base glyph is a space (the cell's own zero-width combining marks may follow it)
+					if mustBeBlank(c.main) && strings.SplitN(got, ",", 2)[0] != "32" {
 						addF("payload-format-char-shown", "cell (%d,%d) holds U+%04X (control / bidi / invisible format character) as primary rune; the terminal shows %s instead of a blank", x, y, c.main, ec.runes)
 					}
 					if wide && x+1 < sh.w && !sh.locked[[2]int{x + 1, y}] && !strings.Contains(cells[y*sh.w+x+1].flags, "c") {
@@ -683,6 +751,19 @@ func execDraw(line string) (res h.Result) {
 					continue
 				}
 				ec := cells[k[1]*sh.w+k[0]]
+				if strings.Contains(snap.flags, "c") && !strings.Contains(ec.flags, "c") && ec.runes == "-" {
+					// when it was locked the cell was the right half of its neighbour's wide glyph; the neighbour has been
+					// repainted with something narrower and the terminal itself erased the orphaned half: no payload
+					// was written to the locked cell
+					tags["locked-orphan-half-erased"] = true
+					continue
+				}
+				if lockLead[k] && !sh.locked[[2]int{k[0] + 1, k[1]}] && ec.runes == "-" && !strings.Contains(ec.flags, "c") {
+					// the mirror image: the locked cell showed the left half of a wide glyph whose right half lies in an
+					// unlocked cell; that cell has been painted (as it must be) and the terminal erased the orphaned half
+					tags["locked-orphan-half-erased"] = true
+					continue
+				}
 				if ec.runes != snap.runes || ec.pen != snap.pen || strings.Contains(ec.flags, "c") != strings.Contains(snap.flags, "c") {
 					addF("locked-cell-overpainted", "cell (%d,%d) is locked and showed %s/%s/%s when it was locked; the terminal now shows %s/%s/%s (block %d)",
 						k[0], k[1], snap.runes, snap.pen, snap.flags, ec.runes, ec.pen, ec.flags, ec.stamp)
@@ -712,6 +793,9 @@ func execDraw(line string) (res h.Result) {
 	res.Obs = strings.Join(obs, " ")
 	if !utf8loc {
 		res.Obs = "SKIP 8-bit locale: judged by the oracle only (the byte-level model is instantiated for UTF-8)"
+	}
+	if staleVariant {
+		res.Obs = "SKIP line recorded on a tree of the other locked-neighbour variant: judged by the oracle only"
 	}
 	for t := range tags {
 		res.Tags = append(res.Tags, t)
@@ -782,7 +866,48 @@ func fitOps(name string, cols map[uint64]bool) []string {
 	return []string{"FIT " + strings.Join(a, ","), "FIT0 " + strings.Join(b, ",")}
 }
 
+// genDrawMatrix: one fixed case per ECMA entry and colour mode that paints a cell in each underline style (with palette,
+// RGB and default underline colour), with each attribute alone and all together, with palette / bright / 256 / RGB
+// colours, and with a hyperlink (with and without id) followed by a plain cell, then Shows twice.  A slip in one
+// per-entry capability string (or in the code that picks it) is then judged by the emulator oracle on a concrete
+// input, in every tier, whatever the seed.
+func genDrawMatrix(g *h.Gen) {
+	for _, name := range ecmaEntries() {
+		for tc := 0; tc < 2; tc++ {
+			var ops []string
+			cols := map[uint64]bool{}
+			put := func(x, y, m int, f StyleF) {
+				cols[f.Fg], cols[f.Bg], cols[f.UlColor] = true, true, true
+				ops = append(ops, fmt.Sprintf("S %d %d %d - %s", x, y, m, f))
+			}
+			val := func(i int) uint64 { return uint64(tcell.PaletteColor(i)) }
+			rgb := uint64(tcell.NewRGBColor(18, 52, 86))
+			for ul := 0; ul <= 5; ul++ { // row 0: underline styles, coloured three ways
+				put(ul, 0, 'a'+ul, StyleF{Fg: val(2), Bg: val(0), UlStyle: ul, UlColor: []uint64{val(1), rgb, uint64(tcell.ColorReset), val(9), val(200), 0}[ul]})
+			}
+			for b := 0; b < 7; b++ { // row 1: each attribute alone, then all
+				put(b, 1, 'A'+b, StyleF{Fg: val(7), Bg: val(4), Attrs: 1 << uint(b)})
+			}
+			put(7, 1, 'H', StyleF{Fg: val(7), Bg: val(4), Attrs: 127})
+			for i, c := range []uint64{val(1), val(9), val(15), val(16), val(87), val(255), rgb, uint64(tcell.ColorReset)} { // row 2: colours
+				put(i, 2, '0'+i, StyleF{Fg: c, Bg: val(0)})
+			}
+			for i, c := range []uint64{val(1), val(9), val(15), val(16), val(87), val(255), rgb, uint64(tcell.ColorReset)} { // row 3: backgrounds
+				put(i, 3, 'p'+i, StyleF{Fg: val(7), Bg: c})
+			}
+			put(0, 4, 'u', StyleF{Fg: val(3), Bg: val(0), Url: "https://example.com/x"})
+			put(1, 4, 'v', StyleF{Fg: val(3), Bg: val(0), Url: "https://example.com/x", UrlId: "id=k"})
+			put(2, 4, 'w', StyleF{Fg: val(3), Bg: val(0)})
+			put(7, 4, 'z', StyleF{Fg: val(3), Bg: val(0), Url: "http://last"}) // the frame ends inside a hyperlink
+			ops = append(ops, "W", "S 0 0 98 - "+StyleF{Fg: val(2), Bg: val(0)}.String(), "W", "W")
+			ops = append(ops, fitOps(name, cols)...)
+			g.Emit("draw %s %d 8 5 %s", name, tc, strings.Join(ops, "; "))
+		}
+	}
+}
+
 func genDraw(g *h.Gen) {
+	genDrawMatrix(g)
 	r := g.R
 	ents := ecmaEntries()
 	n := g.N(1200, 40000)
@@ -796,6 +921,7 @@ func genDraw(g *h.Gen) {
 		var ops []string
 		nops := r.Range(4, 36)
 		cols := map[uint64]bool{}
+		lastLock := ""
 		drawStyle := func(r *h.Rand) StyleF {
 			f := drawStyle(r)
 			cols[f.Fg], cols[f.Bg], cols[f.UlColor] = true, true, true
@@ -830,8 +956,33 @@ func genDraw(g *h.Gen) {
 				ops = append(ops, fmt.Sprintf("K %d %d", r.Intn(7), h.Pick(r, genColors)))
 			case k < 68:
 				lk := r.Intn(2)
-				ops = append(ops, fmt.Sprintf("L %d %d %d %d %d", x, y, r.Range(0, 3), r.Range(0, 2), lk))
-				if lk == 1 && r.Chance(40) { // a wide rune right beside the locked region
+				if lk == 0 && lastLock != "" && r.Chance(50) { // unlock exactly what was locked last
+					ops = append(ops, lastLock+" 0")
+					lastLock = ""
+					continue
+				}
+				lw, lh := r.Range(0, 3), r.Range(0, 2)
+				beside := lk == 1 && r.Chance(40)
+				if beside && r.Chance(70) { // … and the region is not empty, inside the screen, not in column 0
+					if lw == 0 {
+						lw = 1
+					}
+					if lh == 0 {
+						lh = 1
+					}
+					if x < 1 {
+						x = 1
+					}
+					if y < 0 {
+						y = 0
+					}
+				}
+				reg := fmt.Sprintf("L %d %d %d %d", x, y, lw, lh)
+				ops = append(ops, fmt.Sprintf("%s %d", reg, lk))
+				if lk == 1 {
+					lastLock = reg
+				}
+				if beside { // a wide rune right beside the locked region
 					ops = append(ops, fmt.Sprintf("S %d %d %d - %s", x-1, y, h.Pick(r, []int{0x4e16, 0x754c, 0xff21}), drawStyle(r)))
 				}
 			case k < 86:
@@ -854,7 +1005,7 @@ func genDraw(g *h.Gen) {
 		}
 		ops = append(ops, fitOps(name, cols)...)
 		w0, h0 := r.Range(2, 7), r.Range(1, 4)
-		g.Emit("draw %s %d %d %d %s", name, r.Intn(2), w0, h0, strings.Join(ops, "; "))
+		g.Emit("draw %s%s %d %d %d %s", name, lockGuardSuffix(), r.Intn(2), w0, h0, strings.Join(ops, "; "))
 	}
 }
 
@@ -893,16 +1044,52 @@ func genDrawCP(g *h.Gen) {
 				ops = append(ops, fmt.Sprintf("S %d %d %d - 0,0,0,0,0,-,-", x, y, cps[i+k]))
 			}
 			ops = append(ops, "W")
-			g.Emit("draw %s 0 8 4 %s", tgt, strings.Join(ops, "; "))
+			g.Emit("draw %s 0 8 4 %s", tgt+lockGuardSuffix(), strings.Join(ops, "; "))
 		}
+	}
+	// combining lists in UTF-8 and in 8-bit locales, including charmaps that answer an unencodable rune with the SUB
+	// byte 0x1A and no error (gdamore/encoding: US-ASCII, ISO8859-1, ISO8859-9) and ones that return an error
+	// (x/text: ISO8859-2, KOI8-R): an unencodable combining rune must be elided, never sent as a control byte
+	bases := []int{'e', 'a', 0xe9, 0x4e16, 0x2500, 0x3b1, 0x416}
+	// candidates; only marks the library's own width table calls zero-width are in the property's domain ("combining
+	// lists being limited to zero-width non-control marks"): go-runewidth v0.0.16 gives width 1 to U+FE0F, U+093E, U+05B0
+	var marks []int
+	for _, m := range []int{0x301, 0x308, 0x20dd, 0xfe0f, 0x200d, 0x93e, 0x1f3fd, 0x483, 0x5b0, 0x1ab0, 0x302, 0x36f} {
+		if runewidth.RuneWidth(rune(m)) == 0 {
+			marks = append(marks, m)
+		}
+	}
+	for _, tgt := range []string{"xterm-256color", "xterm-256color@ISO8859-1", "xterm-256color@US-ASCII", "xterm-256color@ISO8859-9",
+		"xterm-256color@ISO8859-2", "xterm-256color@KOI8-R", "vt100@ISO8859-1"} {
+		var ops []string
+		k := 0
+		flush := func() {
+			if len(ops) > 0 {
+				g.Emit("draw %s 0 8 4 %s", tgt, strings.Join(append(ops, "W"), "; "))
+			}
+			ops, k = nil, 0
+		}
+		for bi, b := range bases {
+			for mi, m := range marks {
+				comb := fmt.Sprintf("%d", m)
+				if (bi+mi)%3 == 0 {
+					comb = fmt.Sprintf("%d,%d", m, marks[(mi+1)%len(marks)])
+				}
+				ops = append(ops, fmt.Sprintf("S %d %d %d %s 0,0,0,0,0,-,-", []int{0, 3, 6}[k%3], k/3, b, comb))
+				if k++; k == 12 {
+					flush()
+				}
+			}
+		}
+		flush()
 	}
 }
 
 func init() {
 	h.Register(&h.Engine{Name: "drawcp",
-		Rule: "every code point (quick: all below U+3000, every 61st above, boundary values; thorough: all 0x110000) and out-of-range rune values as primary cell content in the first, a middle and the last column; UTF-8 and ISO8859-1 locales; 12 runes per case; every case is non-trivial",
+		Rule: "every code point (quick: all below U+3000, every 61st above, boundary values; thorough: all 0x110000) and out-of-range rune values as primary cell content in the first, a middle and the last column; UTF-8 and ISO8859-1 locales; plus base x combining-mark cells in UTF-8 and five 8-bit charsets (SUB-answering and error-answering charmaps); 12 cells per case; every case is non-trivial",
 		Gen:  genDrawCP, Exec: execDraw})
 	h.Register(&h.Engine{Name: "draw",
-		Rule: "draw histories (4-36 ops) on a real terminfo screen over a fake tty, every ECMA-family entry, direct colour on/off, sizes 2..7 x 1..4; distinct = distinct line; non-trivial = at least one in-range SetContent",
+		Rule: "a fixed attribute/underline/colour/hyperlink matrix for every ECMA-family entry x direct colour on/off, then random draw histories (4-36 ops) on a real terminfo screen over a fake tty, every ECMA-family entry, direct colour on/off, sizes 2..7 x 1..4; distinct = distinct line; non-trivial = at least one in-range SetContent",
 		Gen:  genDraw, Exec: execDraw})
 }
